@@ -39,7 +39,9 @@ LEVEL_TEXT = "All-values proofs per (form, operation, integral part); corpus of 
 LEVEL_NOTE = "Trusted: ufv/den.py; polynomial coefficient extraction p(1,1)-p(1,0)-p(0,1)+p(0,0) (valid for multi-affine forms, the property's precondition); z3."
 TRUSTED = ["ufv/den.py", "coefficient extraction identities for multi-affine polynomials", "z3, ufv/alg.py"]
 ASSUMPTIONS = ["forms affine in their highest-numbered argument and linear in the test function (precondition of the property)", "finite corpus; gdim 2",
-               "complex mode for adjoint/energy_norm, real mode otherwise"]
+               "complex mode for adjoint/energy_norm, real mode otherwise",
+               "adjoint obligations build forms with un-parted arguments only: for MixedFunctionSpace parts compute_form_adjoint adjoints every block in place "
+               "(its documented convention, pinned by the library's own test), which is not decided here (DESIGN 10.4)"]
 EXPLANATION = "lhs/rhs/functional are the homogeneous parts, action/energy_norm substitutions and adjoint the conjugate swap, for all terminal values."
 
 
